@@ -81,6 +81,62 @@ theorem C15_body_complete (fmt : Int → Str) (ds : Dataset) (hds : ds.WF) (path
   · simp at h
   · simp at h
 
+/-- **The statement of the property in one theorem** (composition of `C15_answer`, `C15_body_complete` and the
+    definition of `handle`): for every well-formed dataset, every path and every query string the model's answer is
+    exactly one of
+    (1) status 200 with the content type and description of the response kind the extension names (one of dds, das,
+        dods, ascii) **and a body that reads to its end**;
+    (2) the error document, code −1, status 500, `Content-description: OPeNDAP_error`, because the guarded region
+        raised an exception of a class the model resolves;
+    (3) `answered` — the guarded region reached behaviour the model leaves open (`Exc.unspecified`: the response kinds
+        dmr/html/ver, comparisons of unlike types, paths through base variables, …).  For (3) the theorem says only
+        "no escape": status, headers and the completeness of the body are carried by the oracle alone. -/
+theorem C15_complete_answer (fmt : Int → Str) (ds : Dataset) (hds : ds.WF) (path query : Str) :
+    (∃ k text pre ext, handle fmt ds path query = .ok k (.complete text) ∧ rsplitDot path = some (pre, ext) ∧
+        lookupKind ext = some k ∧ k ≠ .other ∧
+        headersOf (handle fmt ds path query) = some ⟨200, contentType k, contentDescription k⟩) ∨
+    (handle fmt ds path query = .errdoc (-1) ∧ headersOf (handle fmt ds path query) = some errorHeaders ∧
+        ∃ e, e ≠ .unspecified ∧ guarded ds path query = .error e) ∨
+    (handle fmt ds path query = .answered ∧ guarded ds path query = .error .unspecified) := by
+  rcases C15_answer fmt ds path query with ⟨k, body, pre, ext, h, hp, hk, hh⟩ | ⟨h, hh⟩ | h
+  · obtain ⟨t, ht⟩ := C15_body_complete fmt ds hds path query k body h
+    subst ht
+    refine .inl ⟨k, t, pre, ext, h, hp, hk, ?_, hh⟩
+    intro hko
+    subst hko
+    unfold handle at h
+    cases hg : guarded ds path query with
+    | error e => rw [hg] at h; cases e <;> simp at h
+    | ok r =>
+      obtain ⟨k', cds⟩ := r
+      rw [hg] at h
+      simp only [Outcome.ok.injEq] at h
+      rw [guarded_eq ds path query pre ext hp] at hg
+      rw [hk] at hg
+      cases hc : constrained ds (if ext = cs!"das" then [] else query) <;> rw [hc] at hg <;> simp at hg
+  · refine .inr (.inl ⟨h, hh, ?_⟩)
+    unfold handle at h
+    cases hg : guarded ds path query with
+    | ok r => rw [hg] at h; simp at h
+    | error e =>
+      refine ⟨e, ?_, rfl⟩
+      intro he; subst he; rw [hg] at h; simp at h
+  · refine .inr (.inr ⟨h, ?_⟩)
+    unfold handle at h
+    cases hg : guarded ds path query with
+    | ok r => rw [hg] at h; simp at h
+    | error e => rw [hg] at h; cases e <;> simp at h; rfl
+
+-- non-vacuity of the three cases: 200 + complete body, error document, the open class
+example : handle intText ⟨cs!"d", [.base { name := cs!"a", ty := cs!"Int32", shape := [3], dims := [], data := [5, 6, 7] }]⟩
+    (cs!"/d.dds") (cs!"a[0:1]") = .ok .dds (.complete (cs!"Dataset {\n    Int32 a[a = 2];\n} d;\n")) := by decide +kernel
+example : handle intText ⟨cs!"d", [.base { name := cs!"a", ty := cs!"Int32", shape := [3], dims := [], data := [5, 6, 7] }]⟩
+    (cs!"/d.dds") (cs!"a[3]") = .errdoc (-1) := by decide +kernel
+example : handle intText ⟨cs!"d", [.base { name := cs!"a", ty := cs!"Int32", shape := [3], dims := [], data := [5, 6, 7] }]⟩
+    (cs!"/d.dmr") [] = .answered ∧
+    handle intText ⟨cs!"d", [.base { name := cs!"a", ty := cs!"Int32", shape := [3], dims := [], data := [5, 6, 7] }]⟩
+    (cs!"/d.dds") (cs!"a.b") = .answered := by decide +kernel
+
 /-! ### histories: several datasets in one process -/
 
 /-- **The answer depends only on the dataset and the request, not on what was served before**: in
